@@ -133,8 +133,15 @@ func Implies(a, b Term) Term {
 	if a.S == "false" || b.S == "true" {
 		return TTrue
 	}
-	return app(SBool, "=>", a, b)
+	t := app(SBool, "=>", a, b)
+	implMu.Lock()
+	implTable[t.S] = [2]Term{a, b}
+	implMu.Unlock()
+	return t
 }
+
+var implTable = map[string][2]Term{}
+var implMu sync.Mutex
 
 func Eq(a, b Term) Term {
 	if a.S == b.S {
